@@ -138,9 +138,22 @@ theorem C03_once_depth1 (ctx : ImplContext) (named : Bool) (hint : TypeHint)
        | .error e => .error e) :=
   structInitLoop_segments ctx named hint hk cpa hcpa nr hnr segs fuel frags idx hf hwf
 
+/-- C03-2 (shape agreement): a `from` conversion renders a flattened member by the shape that `#[child_parents(..)]`
+    gives for the member's own nested struct — the same entry (`find?` by the full path) whose shape the `into`
+    direction uses when it builds that nested struct (`renderChildFragment`), whatever the counterpart's own hint -/
+theorem C03_from_uses_child_shape (ctx : ImplContext) (ca : ChildAttr) (h : TypeHint) (cpa : ChildParentsAttr) (cd : ChildParentData)
+    (hk : ctx.kind.isFrom = true) (hcpa : ctx.input.attrs.childParentsAttr ctx.ty = some cpa)
+    (hfind : cpa.childParents.find? (fun cd => cd.fieldPathStr == ca.childPath.strs.getLast?.getD "") = some cd) :
+    childLineHint ctx ca h = cd.typeHint := by
+  simp [childLineHint, hk, hcpa, hfind]
+
+/-- the other directions keep the hint of the block being built -/
+theorem C03_into_keeps_block_shape (ctx : ImplContext) (ca : ChildAttr) (h : TypeHint) (hk : ctx.kind.isFrom = false) :
+    childLineHint ctx ca h = h := childLineHint_not_from ctx ca h hk
+
 /-- inside a child, members are consumed one line each, in order, and the loop hands the first foreign member back -/
 theorem C03_child_members_all_and_only (ctx : ImplContext) (named : Bool) (cp : ChildPath) (crc : Option ChildRenderContext) (d : Nat)
-    (pfx : String) (hpfx : cp.getStr (some d) = .ok pfx) (hint : TypeHint)
+    (pfx : String) (hpfx : cp.getStr (some d) = .ok pfx) (hint : TypeHint) (hk : ctx.kind.isFrom = false)
     (block : List (FieldContainer × Field)) (rest : List FieldContainer) (fuel : Nat) (frags : TS) (idx : Nat)
     (hf : block.length + 1 < fuel) (hb : ∀ p ∈ block, AtLeaf ctx pfx d p)
     (hrest : rest = [] ∨ ∃ fc rs, rest = fc :: rs ∧ pathMatches fc.path pfx = false) :
@@ -148,6 +161,6 @@ theorem C03_child_members_all_and_only (ctx : ImplContext) (named : Bool) (cp : 
       (match flatLines ctx hint (block.map (·.2)) idx with
        | .ok ls => .ok (frags ++ ls, rest)
        | .error e => .error e) :=
-  loop_leaf_block ctx named cp crc d pfx hpfx hint block rest fuel frags idx hf hb hrest
+  loop_leaf_block ctx named cp crc d pfx hpfx hint hk block rest fuel frags idx hf hb hrest
 
 end O2o
